@@ -44,6 +44,9 @@ def configs(tier, seed):
     for ctx in D.CTXS:
         for mode in MODES:
             out.append(dict(wave='db2', mode=mode, J=2, H=8, W=4, B=2, C=2, ctx=ctx))
+    for mode in MODES:
+        out.append(dict(wave='db2', mode=mode, J=2, H=8, W=8, B=1, C=1, prelude_hw=[6, 6]))
+        out.append(dict(wave='haar', mode=mode, J=3, H=8, W=8, B=1, C=1, prelude_hw=[4, 12]))
     # several channels / images at the third level (dilation 4)
     for mode in MODES:
         out.append(dict(wave='db2', mode=mode, J=3, H=8, W=8, B=1, C=2))
@@ -57,7 +60,14 @@ def _case(cfg):
 
     def impl(pw, ts):
         SWT = pw.dwt.transform2d.SWTForward
-        ys = D.call_ctx(pw, cfg, lambda a: SWT(J=cfg['J'], wave=cfg['wave'], mode=cfg['mode'])(a[0]), ts)
+        m = SWT(J=cfg['J'], wave=cfg['wave'], mode=cfg['mode'])
+        if cfg.get('prelude_hw'):
+            # the same instance has seen an image of another size before (accepted or rejected)
+            try:
+                m(D.torch_of(pw).zeros(1, 1, *cfg['prelude_hw'], dtype=ts[0].dtype))
+            except (RuntimeError, ValueError, AssertionError):
+                pass
+        ys = D.call_ctx(pw, cfg, lambda a: m(a[0]), ts)
         if not isinstance(ys, (list, tuple)):
             raise TypeError('SWTForward did not return a list')
         return [('level%d' % (j + 1), y) for j, y in enumerate(ys)]
